@@ -137,6 +137,9 @@ func (d *decoder) decodeInline() (*RespValue, error) {
 			continue
 		}
 		if l < r {
+			if len(multi) >= maxArrayLen {
+				return nil, ErrBadArrayLenTooLong
+			}
 			multi = append(multi, RespValue{
 				Type: BulkString,
 				Text: b[l:r],
